@@ -23,6 +23,8 @@ from vlib import core
 from vlib import sqfsimg as S
 
 HERE = os.path.dirname(os.path.abspath(__file__))
+sys.path.insert(0, HERE)
+import dotleg  # noqa: E402  (readers created with SQFS_DIR_READER_DOT_ENTRIES: props/C10/dotleg.py)
 LEVEL = "proof"
 ENV = dict(os.environ, ASAN_OPTIONS="detect_leaks=0:allocator_may_return_null=1:max_allocation_size_mb=3000",
            UBSAN_OPTIONS="print_stacktrace=1")
@@ -604,9 +606,21 @@ def run(ctx):
         ctx.proof_broken[:] = [b for b in ctx.proof_broken if "GenC10" in b]
         core.prepare_proofs(ctx)
     info = B.build("asan")
+    # constants of the DOT_ENTRIES mode of dir_reader.c (needs the built library: after the build)
+    changed_dot, err_dot = dotleg.regen_gen(info)
+    if err_dot:
+        ctx.proof_broken.append("C10/GenC10Dot.v: " + err_dot)
+    if changed_dot:
+        ctx.log("GenC10Dot.v changed -> re-checking proofs")
+        ctx.proof_broken[:] = [b for b in ctx.proof_broken if "GenC10" in b]
+        core.prepare_proofs(ctx)
     h = B.compile_harness(info, [os.path.join(HERE, "h_reader.c")], "h_reader_c10")
     with core.Lock("coq"):     # everything the extraction needs, against the current Constants.vo
-        core.coq_make(["C10/ApiModel.vo", "C10/DataModel.vo", "C10/ClientModel.vo", "C10/MetaModel.vo"])
+        core.coq_make(["C10/ApiModel.vo", "C10/DataModel.vo", "C10/ClientModel.vo", "C10/MetaModel.vo", "C10/DotModel.vo"])
+    # the tools of the DOT_ENTRIES leg are built concurrently with the main model driver
+    from concurrent.futures import ThreadPoolExecutor as _TPE
+    _dot_pool = _TPE(max_workers=1)
+    dot_tools = _dot_pool.submit(dotleg.build_tools, ctx, info)
     drv = None
     for attempt in (1, 2):
         try:
@@ -616,7 +630,7 @@ def run(ctx):
         except Exception as e:   # model does not extract/build: the tie is broken, search still runs
             if attempt == 1:     # a concurrently running check may have rebuilt Gen/Constants.vo under us: rebuild once
                 with core.Lock("coq"):
-                    core.coq_make(["C10/ApiModel.vo", "C10/DataModel.vo", "C10/ClientModel.vo", "C10/MetaModel.vo"])
+                    core.coq_make(["C10/ApiModel.vo", "C10/DataModel.vo", "C10/ClientModel.vo", "C10/MetaModel.vo", "C10/DotModel.vo"])
                 continue
             ctx.tie_broken.append("model driver: %r" % (e,))
     ctx.trusted += ["props/C10/h_reader.c (op executor, long-lived and fresh mode), props/C10/driver.ml + stubs.c (I/O glue; "
@@ -627,8 +641,14 @@ def run(ctx):
     ctx.assumptions += ["the block decompressor is a function of its input (Section variable `uncompress`, no contract needed); "
                         "re-observed by the long-lived vs fresh comparison on compressed images",
                         "sqfs_file_t.read_at is the pread loop of lib/sqfs/src/io/file.c on a file that does not change; file size < 2^63",
-                        "SQFS_DIR_READER_DOT_ENTRIES (documented history-dependent inode-number cache, include/sqfs/dir_reader.h) "
-                        "is outside the statement: readers are created with flags = 0"]
+                        "SQFS_DIR_READER_DOT_ENTRIES readers (props/C10/dotleg.py): the answers may depend on the SET of directory "
+                        "inodes fetched through the reader so far (documented, include/sqfs/dir_reader.h), never on the order of the "
+                        "fetches; images of that leg have pairwise distinct directory inode numbers (with duplicates the first "
+                        "fetch wins by design: Properties_C10.ex_dot_first_wins)",
+                        "lib/util/src/rbtree.c satisfies DotModel.rbtree_contract (finite map for every strict-total-order comparator); "
+                        "re-observed by the DOT_ENTRIES tie on trees of 64-300 keys"]
+    ctx.trusted += ["props/C10/h_dot.c, props/C10/driver_dot.ml (DOT_ENTRIES leg: op executor long-lived / fresh-with-the-same-encounter-set, "
+                    "model glue), props/C10/gen_c10dot.c (dir_reader.c enums -> coq/C10/GenC10Dot.v)"]
     # private copies: the shared build / extraction caches are pruned and rebuilt by concurrently running checks
     import shutil
     def private(path, name):
@@ -644,7 +664,10 @@ def run(ctx):
     stats = dict(ops=0, cmp_fresh=0, cmp_model=0, ok_answers=0)
     cases = []
 
-    if ctx.replay:
+    dot_replay = bool(ctx.replay) and json.load(open(ctx.replay)).get("kind") == "dot"
+    if dot_replay:
+        pass
+    elif ctx.replay:
         r = json.load(open(ctx.replay))
         p = os.path.join(ctx.scratch, "replay.sqfs")
         open(p, "wb").write(bytes.fromhex(r["image_hex"]) if "image_hex" in r else zlib.decompress(bytes.fromhex(r["image_zhex"])))
@@ -754,6 +777,13 @@ def run(ctx):
                               dict(image_zhex=zlib.compress(img, 9).hex(), ops=case.ops[:idx + 1], kind=case.kind, detail=detail,
                                    correspondence="props/C10: extracted model == h_reader long (trace)"),
                               no_input=True)
+    # readers created with SQFS_DIR_READER_DOT_ENTRIES: order-freedom of the inode-number cache
+    if dot_replay or not ctx.replay:
+        try:
+            dotleg.run_leg(ctx, info, random.Random(ctx.seed * 7919 + 10), dot_tools.result())
+        except Exception as e:
+            ctx.violation("machinery:dot-leg", "the DOT_ENTRIES leg could not run: %r" % (e,), dict(kind="machinery", detail=repr(e)),
+                          no_input=True)
     if ctx.tier == "thorough" and not ctx.replay:
         # independent re-check of the compiled theorems by coqchk (lists every axiom)
         rc, out = core.sh(["timeout", "1200", "coqchk", "-silent", "-o", "-Q", ".", "SqfsV", "SqfsV.Properties_C10"], cwd=core.COQ)
@@ -776,11 +806,22 @@ def run(ctx):
                             "seek/read/get_position, get_inode (valid/invalid refs, A;B(bad);A patterns), readdir with interleaved cursors, "
                             "resolve_path, positional read, get_block, get_fragment, streams (interleaved), xattr read_all/partial, id lookup, "
                             "fragment table reload; every op answered by long-lived readers, by fresh readers and (where modelled) by the "
-                            "extracted model; non-trivial = compared answers that were successes" % (ctx.seed, "" if ctx.tier == "quick" else "/lzma"))
+                            "extracted model; non-trivial = compared answers that were successes.  DOT_ENTRIES leg: Builder images with "
+                            "64-300 directories whose inode numbers are >= 2^31 apart / around 2^31 and 2^32-1 / exact 2^31 pairs / random "
+                            "32 bit / 1..n, fetched in ascending, descending, alternating, zigzag, BFS and random order, then listings with "
+                            "./.., resolve_inum, resolve_path with . and .. components, sqfs_copy; long-lived reader vs a new reader that "
+                            "re-fetches the same set in another order vs the extracted DotModel; comparator pairs vs key_compare"
+                            % (ctx.seed, "" if ctx.tier == "quick" else "/lzma"))
     ctx.add_samples(samples)
 
 
 def setup():
     regen_genc10()
+    try:
+        dotleg.regen_gen(B.build("asan"))
+        core.build_model_driver("C10dot", "ExtractC10Dot.v", os.path.join(HERE, "driver_dot.ml"),
+                                stubs_c=os.path.join(HERE, "stubs.c"), cclibs=["-lz", "-llzma", "-llz4", "-lzstd"])
+    except Exception as e:
+        print("C10 setup: DOT_ENTRIES leg not prepared: %r" % (e,))
     core.build_model_driver("C10", "ExtractC10.v", os.path.join(HERE, "driver.ml"),
                             stubs_c=os.path.join(HERE, "stubs.c"), cclibs=["-lz", "-llzma", "-llz4", "-lzstd"])
